@@ -65,7 +65,15 @@ fn translate_pipeline(pipeline: Vec<Transform>, ctx: &mut Context) -> Result<sql
     let (select, set_ops) =
         pipeline.break_up(|t| matches!(t, Union { .. } | Except { .. } | Intersect { .. }));
 
+    #[cfg(prql_verif)]
+    let verif_select = select.clone();
+
     let select = translate_select_pipeline(select, ctx)?;
+
+    #[cfg(prql_verif)]
+    debug::verif::emit("select", || {
+        serde_json::json!({"pipeline": verif_select, "sql": select.to_string()}).to_string()
+    });
 
     translate_set_ops_pipeline(select, set_ops, ctx)
 }
